@@ -530,7 +530,7 @@ func (c09) Run(t *testing.T, tape *core.Tape, rcx *RunCtx) *core.Result {
 		res.Class, res.Detail = violation("termination"), fmt.Sprintf("no result after %d scheduler steps / %d goroutines (budget %d, %d junction-simple partial assemblies)", sim.Steps, sim.TasksCreated(), sc.Budget, partial)
 	case sim.End == core.EndDeadlock:
 		res.Class, res.Detail = violation("deadlock"), "every goroutine is blocked and the call has not returned"
-	case leak:
+	case leak && !rcx.Isolated:
 		res.Class, res.Detail = violation("goroutine-left-blocked"), "the call returned but a goroutine it started is blocked forever (lost send or unanswered collector)"
 	case callErr != nil:
 		res.Class, res.Detail = violation("unexpected-error"), callErr.Error()
